@@ -1,5 +1,8 @@
+import copy
+
 from .base import Prop
-from .. import oracles, events_oracles
+from ..world import World
+from .. import oracles, events_oracles, gen
 
 
 class C09(Prop):
@@ -14,6 +17,34 @@ class C09(Prop):
     assumptions = ["stop time equals the event time within 32 eps*max(1,|t|) (the library's loop-exit window)",
                    "'on the event surface' holds to the accuracy of the run: bound 20*(E + O(h^4) of the rolled-back step) * |scale|",
                    "status after a continuation is not asserted", "continuations never pass the already-fired terminal event again (g = 0 at the start would re-trigger it, as in scipy)"]
+
+    def generate(self, seed, tier):
+        scn = gen.gen_scenario(seed, self.pid)
+        fl = [f for f in scn.get("faults", []) if f["op"] == 0 and f["seam"] == "rhs" and f["kind"] == "raise"]
+        r = gen.sub(seed, "rollback_fault")
+        if fl and r.random() < 0.7:
+            # place the fault INSIDE the re-integration up to the terminal event (the only place where a crash finds the event already
+            # recorded and the step rolled back): positions are read off the fault-free twin, never guessed
+            base = copy.deepcopy(scn)
+            base["faults"] = []
+            try:
+                w = World(base, monitors=[], wall_s=10)
+                w.run()
+                nested = set(c["id"] for c in w.icalls if c.get("nested") == 2 and c["op"] == 0)
+                ks, k = [], 0
+                for c in w.calls_by_op.get(0, []):
+                    if c["seam"] == "rhs":
+                        k += 1
+                        if c["icall"] in nested:
+                            ks.append(k)
+                if ks:
+                    fl[0]["at"] = r.choice(ks)
+                    scn["fault_in_rollback"] = True
+                    # the calls after the fault have to get done within a generous multiple of what the whole fault-free history needed
+                    scn["op_budgets"] = {str(j): 50 * w.seq + 5000 for j in range(1, len(scn["ops"])) if scn["ops"][j]["op"] == "integrate"}
+            except BaseException:
+                pass
+        return [scn]
 
     def monitors(self, scn):
         mons = [events_oracles.Events(props=("C09",))]
